@@ -159,6 +159,30 @@ func opPkgWrites(args []string) string {
 					}
 				}
 			}
+			// types of package-level variables (declared type or composite-literal type)
+			sharedTypes := map[string]bool{}
+			for _, f := range pkg.Files {
+				for _, d := range f.Decls {
+					if gd, ok := d.(*ast.GenDecl); ok && gd.Tok == token.VAR {
+						for _, sp := range gd.Specs {
+							vs := sp.(*ast.ValueSpec)
+							if vs.Type != nil {
+								sharedTypes[strings.TrimPrefix(types.ExprString(vs.Type), "*")] = true
+							}
+							for _, v := range vs.Values {
+								if cl, ok := v.(*ast.CompositeLit); ok && cl.Type != nil {
+									sharedTypes[types.ExprString(cl.Type)] = true
+								}
+								if ue, ok := v.(*ast.UnaryExpr); ok {
+									if cl, ok := ue.X.(*ast.CompositeLit); ok && cl.Type != nil {
+										sharedTypes[types.ExprString(cl.Type)] = true
+									}
+								}
+							}
+						}
+					}
+				}
+			}
 			for fn, f := range pkg.Files {
 				for _, d := range f.Decls {
 					fd, ok := d.(*ast.FuncDecl)
@@ -181,17 +205,31 @@ func opPkgWrites(args []string) string {
 							}
 						}
 					}
+					recvShared := ""
 					if fd.Recv != nil {
 						for _, fl := range fd.Recv.List {
 							for _, n := range fl.Names {
 								local[n.Name] = true
+								// a method of a type that has a package-level instance (e.g. TokenMap / TokMap): its receiver
+								// may BE the shared object (or a copy sharing its maps/slices)
+								if sharedTypes[strings.TrimPrefix(types.ExprString(fl.Type), "*")] {
+									recvShared = n.Name
+								}
 							}
 						}
 					}
 					ast.Inspect(fd.Body, func(n ast.Node) bool {
 						check := func(lhs ast.Expr) {
-							if id := rootIdent(lhs); id != nil && globals[id.Name] && !local[id.Name] {
+							id := rootIdent(lhs)
+							if id == nil {
+								return
+							}
+							if globals[id.Name] && !local[id.Name] {
 								found = append(found, fmt.Sprintf("%s:%s:%s", filepath.Base(fn), fd.Name.Name, types.ExprString(lhs)))
+							} else if recvShared != "" && id.Name == recvShared {
+								if _, plain := lhs.(*ast.Ident); !plain {
+									found = append(found, fmt.Sprintf("%s:%s:%s (through the receiver of a type with a package-level instance)", filepath.Base(fn), fd.Name.Name, types.ExprString(lhs)))
+								}
 							}
 						}
 						switch x := n.(type) {
